@@ -67,4 +67,24 @@ end field
 
 @[simp] theorem sabs_real (x : ℝ) : sabs x = |x| := sabs_field x
 
+/-! the same bridges for the instance path `Scalar ℝ → OrdField ℝ` (what models over `[Scalar α]` produce) -/
+@[simp] theorem ofNat_real (n : Nat) [n.AtLeastTwo] :
+    (@OfNat.ofNat ℝ n (@OrdField.instOfNat ℝ (@Scalar.toOrdField ℝ instScalarReal) n)) = (OfNat.ofNat n : ℝ) := rfl
+@[simp] theorem ofNat_real_zero :
+    (@OfNat.ofNat ℝ 0 (@OrdField.instOfNat ℝ (@Scalar.toOrdField ℝ instScalarReal) 0)) = (0 : ℝ) :=
+  ofNat_field_zero
+@[simp] theorem ofNat_real_one :
+    (@OfNat.ofNat ℝ 1 (@OrdField.instOfNat ℝ (@Scalar.toOrdField ℝ instScalarReal) 1)) = (1 : ℝ) :=
+  ofNat_field_one
+@[simp] theorem sabs_real' (x : ℝ) : @sabs ℝ (@Scalar.toOrdField ℝ instScalarReal) x = |x| := sabs_field x
+@[simp] theorem sin_real (x : ℝ) : Scalar.sin x = Real.sin x := rfl
+@[simp] theorem cos_real (x : ℝ) : Scalar.cos x = Real.cos x := rfl
+@[simp] theorem tan_real (x : ℝ) : Scalar.tan x = Real.tan x := rfl
+@[simp] theorem sqrt_real (x : ℝ) : Scalar.sqrt x = Real.sqrt x := rfl
+@[simp] theorem acos_real (x : ℝ) : Scalar.acos x = Real.arccos x := rfl
+@[simp] theorem pi_real : (Scalar.pi : ℝ) = Real.pi := rfl
+@[simp] theorem sci_real (m : Nat) (s : Bool) (e : Nat) :
+    (@OfScientific.ofScientific ℝ (@OrdField.instOfScientific ℝ (@Scalar.toOrdField ℝ instScalarReal)) m s e)
+      = (OfScientific.ofScientific m s e : ℝ) := rfl
+
 end BR
